@@ -208,3 +208,7 @@ ben("c16-correlation-vdot", "C16", "metrics/_correlation.py", "    correlation =
 ben("c03-polynomial-accumulate", "C03", "nonlin_fun/_polynomial.py", "        u_power = 1.0\n        u_nonlin = 0.0\n        for coeff in self.coefficients:\n            u_nonlin += coeff * u_power\n            u_power = u_power * u\n", "        import itertools, operator\n        u_powers = itertools.accumulate(itertools.repeat(u), operator.mul, initial=1.0)\n        u_nonlin = sum((coeff * u_power for coeff, u_power in zip(self.coefficients, u_powers)), start=0.0)\n", "lazy power sequence")
 ben("c04-oddball-as-lowpass", "C04", "_spectral.py", "    if num_points % 2 == 1:\n        # Odd number of degrees of freedom (no issue with the Nyquist mode)\n        return jnp.ones(\n            (1, *wavenumber_shape(num_spatial_dims, num_points)), dtype=bool\n        )\n    else:", "    if num_points % 2 == 1:\n        # on an odd grid the largest stored wavenumber is (N-1)//2: the inclusive low-pass keeps everything\n        return low_pass_filter_mask(\n            num_spatial_dims, num_points, cutoff=(num_points - 1) // 2, axis_separate=True\n        )\n    else:", "oddball mask of an odd grid as an all-pass low-pass filter")
 ben("c04-modes-slices-product-repeat", "C04", "_spectral.py", "    slices_ = [[slice(None, nyquist_mode + 1)]]\n    # All other axes have both positive and negative wavenumbers\n    slices_ += [[left_slice, right_slice] for _ in range(num_spatial_dims - 1)]\n    all_modes_slices = [\n        [\n            slice(None),\n        ]\n        + list(reversed(p))\n        for p in product(*slices_)\n    ]", "    rfft_slice = slice(None, nyquist_mode + 1)\n    all_modes_slices = [\n        [slice(None), *block[::-1], rfft_slice]\n        for block in product((left_slice, right_slice), repeat=num_spatial_dims - 1)\n    ]", "blocks enumerated with product(repeat=D-1)")
+
+# ------------------------------------------------------------------------------------------ seeded wave 8: exact limits at a zero symbol
+ben("c02-etdrk1-exact-limit-at-zero", "C02", "etdrk/_etdrk_1.py", "        self._coef_1 = dt * mean_c1\n", "        self._coef_1 = jnp.where(L_dt == 0, dt, dt * mean_c1)\n", "phi_1(0) = 1: the exact value instead of the contour mean where the symbol vanishes")
+mut("c02-etdrk1-wrong-limit-at-zero", "C02", "etdrk/_etdrk_1.py", "        self._coef_1 = dt * mean_c1\n", "        self._coef_1 = jnp.where(L_dt == 0, dt / 2, dt * mean_c1)\n", "wrong limit at a zero symbol (cf. seeded S79)")
